@@ -1,5 +1,5 @@
 (* C12 - Size and range limits are exact; accepted values are never altered to fit. *)
-From Ctap Require Import Base Schema Wire Utf8 Typed Procs Inst Tables Limits WireP TypedP FramingP ObRequestSide.
+From Ctap Require Import Base Schema Wire Utf8 Typed WellTyped Procs Inst Tables Limits WireP TypedP FramingP SerP RoundTripP ObRequestSide ObEnvRt.
 Local Open Scope string_scope.
 Local Open Scope Z_scope.
 
@@ -50,6 +50,29 @@ Theorem c12_i32_out_of_range : forall e k z r, 2147483647 < z < 4294967296 ->
   dec e (S k) TI32 (ser_int (-1 - z) ++ r)%list = Err BadI32.
 Proof. exact dec_i32_out_of_range. Qed.
 
+(* counted members (allow list 10, exclude list 16, ...): a list of ANY well-typed elements is delivered whole,
+   element for element, when its count is at most the capacity N; with a count above N it is rejected as
+   soon as the (N+1)-th element has been read, whatever follows *)
+Theorem c12_count_exact : forall e k u cap l,
+  env_rt e = true -> forallb (wt e k u) l = true -> 0 <= cap ->
+  forall body, concat_opt (map (ser e k u) l) = Some body ->
+  (blen l <= cap -> blen l < lim32 -> forall rest,
+     dec e (S k) (TVec u cap) (put_head 4 (blen l) ++ body ++ rest)%list = Ok (VList l, rest)) /\
+  (blen l = cap + 1 -> forall n rest, blen l <= n < lim32 ->
+     dec e (S k) (TVec u cap) (put_head 4 n ++ body ++ rest)%list = Err SerdeDeCustom).
+Proof. exact vec_count_exact. Qed.
+
+(* "a value that is accepted is delivered whole": every well-typed value of every request type, in every
+   feature configuration of the crate as it is now, comes back from the decoder exactly - no member
+   shortened, wrapped, sign-changed or clamped *)
+Theorem c12_accepted_values_unaltered : forall f t v b rest, In f all_feats ->
+  wt (gen_env f) type_fuel t v = true -> encode (gen_env f) t v = Some b ->
+  decode (gen_env f) t (b ++ rest)%list = Ok (v, rest).
+Proof.
+  intros f t v b rest Hf. apply decode_encode.
+  exact (forallb_In (fun f => env_rt (gen_env f)) all_feats f generated_env_rt Hf).
+Qed.
+
 (* tie to the source *)
 Theorem c12_generated_conforms :
   forallb (fun f => request_side_conforms (gen_env f) (spec_env f)) all_feats = true.
@@ -69,3 +92,5 @@ Eval vm_compute in "ASSUMPTIONS c12_u32_exact". Print Assumptions c12_u32_exact.
 Eval vm_compute in "ASSUMPTIONS c12_i32_exact". Print Assumptions c12_i32_exact.
 Eval vm_compute in "ASSUMPTIONS c12_i32_out_of_range". Print Assumptions c12_i32_out_of_range.
 Eval vm_compute in "ASSUMPTIONS c12_generated_conforms". Print Assumptions c12_generated_conforms.
+Eval vm_compute in "ASSUMPTIONS c12_count_exact". Print Assumptions c12_count_exact.
+Eval vm_compute in "ASSUMPTIONS c12_accepted_values_unaltered". Print Assumptions c12_accepted_values_unaltered.
